@@ -872,6 +872,7 @@ def pHStep (tok : String) : P HStep := do
   | ["K", b, a] => pure (.likeKw b a)
   | ["C", b, a] => pure (.deepcopy b a)
   | ["L", b, a, t] => pure (.likeM b a t)
+  | ["J", b, a, v] => do pure (.fxpLike b a (← pRat v))
   | ["V", b, a, s, n, f] => do pure (.conv b a (← pFmt s n f))
   | ["A", c, a, b] => pure (.add c a b)
   | ["P", c, a, b] => pure (.add c a b)
